@@ -1,11 +1,108 @@
-KERNELS = {'C08_reduce': dict(src='kernels/C08_reduce.cpp', flags=['-DNDEBUG'])}
+KERNELS = {'C08_reduce': dict(src='kernels/C08_reduce.cpp', flags=['-DNDEBUG']),
+           'C08_front': dict(src='kernels/C08_front.cpp', flags=['-DNDEBUG']),
+           'C08_index': dict(src='kernels/C08_index.cpp', flags=['-DNDEBUG'])}
 def _c(e, **kw):
     c = {'MAXE': e, '_unwind': e**3 + 2, '_unwindset': ['in_data.0:%d' % (e**3 + 2), 'k_fill_u32.0:%d' % (e**3 + 2)]}; c.update(kw); return c
-def _r(name, **kw):
-    return dict(name=name, src='harnesses/C08.c', func='h_' + name, kernels=['C08_reduce'], quick=[_c(2)], thorough=[_c(3)], bounds='', **kw)
-HARNESSES = [_r(n) for n in ('rsub_axis', 'rsub_axis_init', 'rsub_axis_keep_ct', 'rsub_axis_keep_rt', 'rsub_axis_init_keep_rt', 'radd_axis',
-                             'rsub_axes2', 'rsub_axes2_init_keep_rt', 'rsub_axes3_keep_ct', 'radd_axes2',
-                             'rsub_none', 'rsub_none_init', 'rsub_none_keep_ct', 'rsub_none_keep_rt', 'asub_axis')]
-OUTSIDE = []
-ASSUMPTIONS = []
-CLAIM = dict(text='', note='')
+def _shapes(e, **kw):
+    """every 3-d shape with extents 1..e as per-query constants"""
+    return [_c(e, SH0=a, SH1=b, SH2=c, **kw) for a in range(1, e + 1) for b in range(1, e + 1) for c in range(1, e + 1)]
+B3 = ('hybrid 3-d array of unsigned (wrap-around defined); extents 1..MAXE, all element data, the (possibly negative) axis / axes, the result index '
+      'and the initial value are symbolic unless a config fixes them (KEEP = run-time keepdims value, SH0..SH2 = shape: enumerated exhaustively); ')
+def _r(name, bounds, quick=None, thorough=None, **kw):
+    return dict(name=name, src='harnesses/C08.c', func='h_' + name, kernels=['C08_reduce'], bounds=B3 + bounds,
+                quick=[_c(2)] if quick is None else quick, thorough=[_c(3)] if thorough is None else thorough, timeout=kw.pop('timeout', 900), **kw)
+KEEPS = [_c(2, KEEP=0), _c(2, KEEP=1)]
+KEEPS3 = [_c(3, KEEP=0, _timeout=3600), _c(3, KEEP=1, _timeout=3600)]
+KFA = {'KF_C08_ACCUM_NEGATIVE_AXIS': 1}
+HARNESSES = [
+ # ---- quick tier: one harness per sub-claim
+ _r('rsub_axis', 'view::reduce_subtract(a, axis): single axis in [-3,2], no initial, keepdims False'),
+ _r('rsub_axis_keep_ct', 'reduce_subtract(a, axis, None, None, True): compile-time keepdims'),
+ _r('rsub_axis_init_keep_rt', 'reduce_subtract(a, axis, None, initial, bool keepdims): initial present, keepdims a run-time bool (either<> result), one query per keepdims value',
+    quick=KEEPS, thorough=KEEPS3),
+ _r('radd_axes2', 'view::reduce_add(a, array<int,2> axes): two distinct axes in any order / sign'),
+ _r('rsub_axes2', 'view::reduce(subtract, a, array<int,2> axes): fold in C order of the source coordinates over two axes; shape a per-query constant '
+    '(symbolic shape: no verdict in 900 s); quick only shape (2,2,2), thorough every shape with extents 1..2',
+    quick=[_c(2, SH0=2, SH1=2, SH2=2)], thorough=_shapes(2, _timeout=1800)),
+ _r('rsub_none_init', 'view::reduce(subtract, a, None, None, initial): all axes, result a number; shape a per-query constant, all 8 / 27 shapes enumerated',
+    quick=_shapes(2), thorough=_shapes(3)),
+ _r('rsub_none_keep_rt', 'view::reduce(subtract, a, None, None, None, bool keepdims): number or (1,1,1) array decided at run time; keepdims symbolic; shape a per-query constant, all shapes enumerated',
+    quick=_shapes(2), thorough=_shapes(3)),
+ _r('asub_axis', 'view::accumulate_subtract(a, axis): running fold, source shape; negative axes are the pending finding', quick=[_c(2, **KFA)], thorough=[_c(3, **KFA)]),
+ # ---- thorough tier only (symbolic shapes, measured 125..720 s each at extents <= 2 on the loaded machine)
+ _r('rsub_axis_init', 'reduce_subtract(a, axis, None, initial)', quick=[], thorough=[_c(2), _c(3, _timeout=3600)]),
+ _r('rsub_axis_keep_rt', 'reduce_subtract(a, axis, None, None, bool keepdims), one query per keepdims value', quick=[], thorough=KEEPS + KEEPS3),
+ _r('radd_axis', 'view::reduce_add(a, axis)', quick=[], thorough=[_c(2), _c(3, _timeout=3600)]),
+ _r('rsub_axes3_keep_ct', 'view::reduce(subtract, a, array<int,3> axes (every permutation / sign), keepdims True)', quick=[], thorough=[_c(2), _c(3, _timeout=3600)]),
+ _r('rsub_axes2_init_keep_rt', 'view::reduce(subtract, a, array<int,2>, None, initial, bool keepdims); shape a per-query constant (symbolic shape: no verdict in 900 s)',
+    quick=[], thorough=_shapes(2, KEEP=0, _timeout=1800) + _shapes(2, KEEP=1, _timeout=1800)),
+ _r('rsub_none', 'view::reduce(subtract, a, None) with a symbolic shape', quick=[], thorough=[_c(2, _timeout=1800)]),
+ _r('rsub_none_keep_ct', 'view::reduce(subtract, a, None, None, None, True) with a symbolic shape', quick=[], thorough=[_c(2, _timeout=1800)]),
+]
+# ---- index level
+IB = 'bounded run-time-dim shape (static_vector<size_t,4>, dim 1..4) unless stated; every extent any 64-bit value, axis/axes positive or negative, result index below the result shape: all symbolic; '
+def _i(name, bounds, **kw):
+    return dict(name='ix_' + name, src='harnesses/C08_index.c', func='h_' + name, kernels=['C08_index'], unwind=6, quick=kw.pop('quick', [{}]), thorough=kw.pop('thorough', [{}]), bounds=IB + bounds, **kw)
+HARNESSES += [
+ _i('rd_axis_f', 'index::remove_dims(shape, axis, False)'), _i('rd_axis_t', 'index::remove_dims(shape, axis, True)'),
+ _i('rd_arr4_axis_f', 'remove_dims on std::array<size_t,4>, False'), _i('rd_arr4_axis_t', 'remove_dims on std::array<size_t,4>, True'),
+ _i('rd_axes2_f', 'remove_dims(shape, array<int,2>, False), dim 2..4'), _i('rd_axes2_t', 'remove_dims(shape, array<int,2>, True), dim 2..4'),
+ _i('rd_none_t', 'remove_dims(shape, None, True)'),
+ _i('rd_axis_rt', 'remove_dims(shape, axis, bool keepdims) called directly with a run-time bool (view::reduce never does); region of the pending finding (keepdims && dim == bound) excluded',
+    quick=[{'KF_C08_REMOVE_DIMS_RT_KEEPDIMS': 1}], thorough=[{'KF_C08_REMOVE_DIMS_RT_KEEPDIMS': 1}], gate=False),
+ _i('rs_axis_f', 'index::reduction_slices(indices, shape, axis, False)'), _i('rs_axis_t', 'reduction_slices(indices, shape, axis, True)'),
+ _i('rs_axes2_f', 'reduction_slices(indices, shape, array<int,2>, False)'), _i('rs_axes2_t', 'reduction_slices(indices, shape, array<int,2>, True)'),
+]
+# ---- front ends
+def _f(name, bounds, quick=None, thorough=None, **kw):
+    return dict(name='fe_' + name, src='harnesses/C08_front.c', func='h_' + name, kernels=['C08_front'], bounds=B3 + bounds,
+                quick=[_c(2)] if quick is None else quick, thorough=[_c(3, _timeout=3600)] if thorough is None else thorough, timeout=900, **kw)
+HARNESSES += [
+ _f('sum_axis', 'view::sum(a, axis)'), _f('amax_axis', 'view::amax(a, axis) == largest matching element'),
+ _f('cumsum_axis', 'view::cumsum(a, axis); negative axes are the pending finding', quick=[_c(2, **KFA)], thorough=[_c(3, _timeout=3600, **KFA)]),
+ _f('trace2', 'view::trace of a 2-d array (a number)'), _f('trace3', 'view::trace of a 3-d array over its first two axes'),
+ _f('mean_axis', 'view::mean of a 2-d float array (extents 1..MAXE) over a symbolic axis; data integer-valued in [-8,8]; + and / uninterpreted (LL_UF_FLOAT): decided is which elements '
+    'enter the sum, in which order, and that the sum is divided by the extent', quick=[dict(_c(2), LL_UF_FLOAT=1)], thorough=[dict(_c(3), LL_UF_FLOAT=1)], backend='kissat'),
+ # thorough only
+ _f('sum_none', 'view::sum(a, None)', quick=[], thorough=[_c(2, _timeout=1800)]),
+ _f('sum_axis_init_keep', 'view::sum(a, axis, None, initial, bool keepdims)', quick=[], thorough=KEEPS),
+ _f('amin_axis', 'view::amin(a, axis)', quick=[], thorough=[_c(2), _c(3, _timeout=3600)]), _f('amax_none', 'view::amax(a)', quick=[], thorough=[_c(2, _timeout=1800)]),
+ _f('prod_axis', 'view::prod(a, axis); element data restricted to 8-bit values (32x32-bit multiplier equivalence gives no verdict); kissat (minisat: no verdict in 900 s)', quick=[], thorough=[_c(2, _timeout=1800)], backend='kissat'),
+ _f('cumprod_axis', 'view::cumprod(a, axis), 8-bit data; negative axes are the pending finding', quick=[], thorough=[_c(2, _timeout=1800, **KFA)], backend='kissat'),
+ # not reached: kept in the harness file, not scheduled (see OUTSIDE)
+ _f('var_axis', 'NOT REACHED', quick=[], thorough=[]), _f('stddev_axis', 'NOT REACHED', quick=[], thorough=[]), _f('vector_norm_axis', 'NOT REACHED', quick=[], thorough=[]),
+]
+PENDING_FINDINGS = [
+ dict(id='C08-accumulate-negative-axis', harness='asub_axis', exclude_define='KF_C08_ACCUM_NEGATIVE_AXIS',
+      witness_inputs=['0x2', '0x2', '0x1', '0x1', '0x0', '0x1', '0x0', '0x0', '0x0', '0x0', '0x0', '0xfffffffffffffffd', '0x1', '0x0', '0x0'], witness_config={'MAXE': 2},
+      what='view::accumulate (accumulate_subtract, cumsum, cumprod, ...) with a NEGATIVE axis returns the source array unchanged: accumulate_t::operator() compares the raw axis '
+           'with the loop index (no normalisation), so no axis is accumulated. cumsum([[1,2,3],[4,5,6]], -1) == [[1,2,3],[4,5,6]] (NumPy [[1,3,6],[4,9,15]]); '
+           'witness: shape (2,2,1), data 1,0,1,0, axis -3, index (1,0,0): returns 1, NumPy 0.'),
+ dict(id='C08-accumulate-negative-axis', harness='fe_cumsum_axis', exclude_define='KF_C08_ACCUM_NEGATIVE_AXIS', witness_config={'MAXE': 2},
+      witness_inputs=['0x2', '0x1', '0x1', '0x1', '0x1', '0x0', '0x0', '0x0', '0x0', '0x0', '0x0', '0xfffffffffffffffd', '0x1', '0x0', '0x0'],
+      what='same defect through view::cumsum: shape (2,1,1), data 1,1, axis -3, index (1,0,0): returns 1, NumPy 2'),
+ dict(id='C08-accumulate-negative-axis', harness='fe_cumprod_axis', exclude_define='KF_C08_ACCUM_NEGATIVE_AXIS', witness_config={'MAXE': 2},
+      witness_inputs=['0x2', '0x1', '0x1', '0x2', '0x3', '0x0', '0x0', '0x0', '0x0', '0x0', '0x0', '0xfffffffffffffffd', '0x1', '0x0', '0x0'],
+      what='same defect through view::cumprod: shape (2,1,1), data 2,3, axis -3, index (1,0,0): returns 3, NumPy 6'),
+ dict(id='C08-remove-dims-runtime-keepdims', harness='ix_rd_axis_rt', exclude_define='KF_C08_REMOVE_DIMS_RT_KEEPDIMS',
+      witness_inputs=['0x1', '0x1', '0x1', '0x1', '0x4', '0x0', '0x1'],
+      what='index::remove_dims(shape, axis, keepdims) with keepdims a run-time bool: the result type is sized for keepdims == false (static_vector<.,bound-1> / array<.,dim-1>); '
+           'keepdims == true on a shape that uses the whole bound (static_vector<size_t,4> of dim 4) makes resize refuse (capacity hook) and the fill loop write past the buffer '
+           '(native: stack corruption). view::reduce is not affected (it dispatches a run-time bool to True/False).'),
+]
+OUTSIDE = [
+ 'var, stddev, vector_norm (compositions of 5-7 views): solver out of memory (6 GB) after 405 s / 428 s / 73 s at extents <= 2 even with uninterpreted float arithmetic - not reached',
+ 'mean with exact IEEE arithmetic (only the uninterpreted-arithmetic form returns a verdict); dtype argument of reductions (float/int result dtype)',
+ 'view::reduce(subtract, a, 2 axes) and its initial/keepdims form with a SYMBOLIC shape (no verdict in 900 s; decided per constant shape), extents > 3, source dims other than 3 (2 for trace/mean)',
+ 'compile-time (constant) axes and shapes, other container kinds (see C09); maximum/minimum/bitwise/logical reductions other than amax/amin (same reduce_t code, different functor: C07 leaf checks)',
+ 'duplicate axes and out-of-range axes (invalid arguments: C15); signed element types (summing arbitrary ints overflows: a property of the data)',
+ 'products of full 32-bit data (prod / cumprod use 8-bit data)',
+]
+ASSUMPTIONS = ['fe_mean_axis: IEEE + and / are uninterpreted functions shared by the kernel and the reference (engine/ll2c.py LL_UF_FLOAT)']
+CLAIM = dict(
+ text='For a hybrid 3-d unsigned array with symbolic extents (1..2 quick, 1..3 thorough), data, axis/axes (positive or negative, any order), result index and initial value the solver shows: '
+      'view::reduce over one axis, two axes, three axes and None, with keepdims false/true as a type or a run-time bool and initial absent/present, has NumPy\'s result shape and its element is the left fold '
+      '(non-commutative subtract) of exactly the source elements with matching non-reduced coordinates in increasing index order; accumulate_subtract is the running fold (non-negative axes); '
+      'index::remove_dims / reduction_slices equal their definitions for every shape of dim 1..4 with arbitrary 64-bit extents; sum, prod, amax, amin, cumsum, cumprod, trace and mean agree with these definitions. '
+      'Two defects found (negative axis in accumulate; remove_dims with run-time keepdims) and excluded as pending findings.',
+ note='Bounded as listed per harness; some forms are decided per constant shape (all shapes enumerated). Trusted: clang-14 -O1 lowering, engine/ll2c.py, CBMC, kissat; validated per run by the differential gate and witness assertions.')
